@@ -342,6 +342,7 @@ def run_property(prop, tier, seed, verbose=False, write_evidence=True):
     undecided = []
     known_hit = []
     canary_ok, canary_bad = 0, []
+    canary_paths = {}
     discharged = 0
     backends = {}
     solver_time = 0.0
@@ -352,10 +353,8 @@ def run_property(prop, tier, seed, verbose=False, write_evidence=True):
         r = v.result or {"status": "unknown", "reason": "not run"}
         solver_time += r.get("time_s", 0)
         if v.kind == "canary":
-            if r["status"] == "unsat":
-                canary_bad.append(v.oid)
-            else:
-                canary_ok += 1
+            # a canary is a deliberately false clause: it must fail on at least one path of its function
+            canary_paths.setdefault(v.oid, []).append(r["status"])
             continue
         if r["status"] == "unsat":
             discharged += 1
@@ -368,7 +367,7 @@ def run_property(prop, tier, seed, verbose=False, write_evidence=True):
         budget = 200 if tier == "quick" else 2000
         wit = try_replay(run, v, rng, budget)
         kf = [f for f in findings if fnmatch.fnmatch(v.oid, f.get("obligation", "\0"))]
-        rec = {"property": prop, "obligation": v.oid, "clause": v.meta.get("clause", ""), "owner": v.owner,
+        rec = {"property": prop, "obligation": v.oid, "clause": v.meta.get("clause", ""), "owner": v.owner, "exception": v.meta.get("exc"),
                "path": v.meta.get("path"), "solver": {k: r.get(k) for k in ("status", "backend", "time_s", "attempts", "reason")},
                "model": r.get("model"), "witness_kind": wit["witness_kind"] if wit else "none",
                "inputs": jsonable(wit["inputs"]) if wit else None, "detail": jsonable(wit["detail"]) if wit else None,
@@ -388,6 +387,11 @@ def run_property(prop, tier, seed, verbose=False, write_evidence=True):
         else:
             undecided.append((v.oid, r))
 
+    for oid, sts in canary_paths.items():
+        if all(s == "unsat" for s in sts):
+            canary_bad.append(oid)
+        else:
+            canary_ok += 1
     # de-duplicate violation lines per obligation id (several paths of one clause)
     seen = set()
     for oid, path, confirmed in violations:
